@@ -60,6 +60,7 @@ A_THOROUGH = [0.001, 0.002, 0.003, 0.01, 0.02, 0.03, 0.06, 0.1]
 
 RTOL = 1e-9  # relative to the reference value
 ATOL_REL = 1e-10  # x |a1 - a0| / beta0: rounding of the cancelling closed forms (log - atan, sum over roots)
+ATOL_EXPANDED = 1e-13  # x |a1 - a0| / beta0 for the (polynomial + log) expanded forms
 EQ_TOL = 1e-12  # x a0 / beta0 for an empty interval
 ROOT_TOL = 1e-12
 
@@ -146,7 +147,7 @@ def evaluate(case):
             res.fail(sig + "/raises", f"{where}: {type(e).__name__}: {e}")
             return
         ref = R[(kind, k, m)]
-        tol = RTOL * abs(ref) + ATOL_REL * abs(R[("scale", k, m)])
+        tol = RTOL * abs(ref) + (ATOL_REL if kind == "exact" else ATOL_EXPANDED) * abs(R[("scale", k, m)])
         dev = abs(val - ref)
         if not math.isfinite(dev):
             res.fail(sig + "/nonfinite", f"{where}: got {val}, reference {ref.real!r}")
@@ -258,6 +259,6 @@ def run(ctx):
         "expanded = termwise integral of the Taylor expansion of the integrand truncated at total power a^(m-3), "
         "i.e. the integral through O(a^(m-2)) as the module docstring states",
         f"tolerance {RTOL} relative + {ATOL_REL} x |a1-a0|/beta0 absolute (rounding of the cancelling closed forms: measured "
-        "<= 3e-12 |a1-a0|/beta0 on the synthetic sets, <= 5e-14 for nf 3-6); a0 = a1 must give 0 within 1e-12 a0/beta0; roots: relative residual 1e-12 and equality with mp.polyroots as a multiset (1e-10)",
+        "<= 3e-12 |a1-a0|/beta0 on the synthetic sets, <= 5e-14 for nf 3-6; 1e-13 for the expanded forms); a0 = a1 must give 0 within 1e-12 a0/beta0; roots: relative residual 1e-12 and equality with mp.polyroots as a multiset (1e-10)",
         "beta coefficients are inputs; whether eko's beta table is right is C20",
     ]
